@@ -131,7 +131,16 @@ FILES = {"Schedules.lean": emit_schedules}
 # ---------------------------------------------------------------------------------
 
 
+_GRAPHS_CACHE = {}
+
+
 def default_graphs():
+    if "g" not in _GRAPHS_CACHE:
+        _GRAPHS_CACHE["g"] = _default_graphs()
+    return _GRAPHS_CACHE["g"]
+
+
+def _default_graphs():
     """Distinct dependency graphs of the default targets for the days from 2015-01-01 on.
 
     The graph is built by the real `load_and_check_functions` + `dags.create_dag` with the
